@@ -5,7 +5,7 @@
 (*     [n |-> Nat, edges |-> Seq(<<u, v>>)]                                *)
 (* with vertices 0..n-1 and edge ids 1..Len(edges); loop-free.             *)
 (***************************************************************************)
-EXTENDS Integers, Sequences, FiniteSets, TLC
+EXTENDS Integers, Sequences, FiniteSets, TLC, TLCExt
 
 V(G)       == 0 .. G.n - 1
 E(G)       == 1 .. Len(G.edges)
@@ -92,6 +92,14 @@ LatticeEdgesFrom(h, w, c) ==
          (IF y # h THEN <<<<c, c + (w + 1)>>>> ELSE <<>>) \o
          (IF x # w THEN <<<<c, c + 1>>>> ELSE <<>>) \o LatticeEdgesFrom(h, w, c + 1)
 Lattice(h, w) == [n |-> (h + 1) * (w + 1), edges |-> LatticeEdgesFrom(h, w, 0)]
+
+(* set partitions of 0..n-1 as restricted growth strings (block ids in order of first appearance), *)
+(* built level by level (a naive recursion over lazily evaluated unions does not terminate in practice) *)
+RgsMax(s) == IF s = <<>> THEN -1 ELSE LET S == {s[i] : i \in DOMAIN s} IN CHOOSE x \in S : \A y \in S : y <= x
+RECURSIVE RgsGrow(_, _)
+RgsGrow(n, S) == IF \A s \in S : Len(s) = n THEN S
+                 ELSE RgsGrow(n, TLCEval(UNION {{Append(s, b) : b \in 0 .. RgsMax(s) + 1} : s \in S}))
+AllRGS(n) == RgsGrow(n, {<<>>})
 
 PathG(n)  == [n |-> n, edges |-> [i \in 1 .. n - 1 |-> <<i - 1, i>>]]
 CycleG(n) == [n |-> n, edges |-> [i \in 1 .. n |-> <<i - 1, i % n>>]]
